@@ -649,6 +649,197 @@ theorem C08_at_most_once (limit : Nat) (evs : List Ev) (hfresh : ∀ id, issued 
     have : 0 < (outIds (run (init limit) evs)).count id := List.count_pos_iff.mpr hm
     omega
 
+/-! ## attribution over whole histories -/
+
+/-- the accessory answers in order: a response it starts to send is the one for the oldest request it has
+    received on this connection and not yet answered -/
+def answersInOrder (s : St) : Ev → Bool
+  | .resp x => match s.inflight with
+    | [] => true            -- nothing outstanding: an unsolicited response (the connection is abandoned)
+    | p :: _ => x == p.id
+  | .half (.resp x) => match s.inflight with
+    | [] => false
+    | p :: _ => x == p.id
+  | _ => true
+
+def InOrder : St → List Ev → Bool
+  | _, [] => true
+  | s, e :: es => answersInOrder s e && InOrder (step s e) es
+
+theorem resp_in_order (s : St) (x : Nat) (h : answersInOrder s (.resp x) = true) :
+    ∀ p ps, s.inflight = p :: ps → x = p.id := by
+  intro p ps hq
+  simp only [answersInOrder, hq] at h
+  simpa using h
+
+theorem half_in_order (s : St) (x : Nat) (h : answersInOrder s (.half (.resp x)) = true) :
+    ∃ p ps, s.inflight = p :: ps ∧ x = p.id := by
+  simp only [answersInOrder] at h
+  split at h
+  · cases h
+  · rename_i p ps hq
+    exact ⟨p, ps, hq, by simpa using h⟩
+
+structure AInv (s : St) : Prop where
+  part : ∀ x, s.part = some (.resp x) → ∃ p ps, s.inflight = p :: ps ∧ x = p.id
+  oks : ∀ id x t, Obs.done id (.ok x) t ∈ s.obs → x = id
+
+theorem not_ok_of_sent (o : Obs) (h : isSent o) : ∀ id x t, o ≠ .done id (.ok x) t := by
+  intro id x t heq; subst heq; exact h
+
+theorem letThrough_ainv (fuel : Nat) (s : St) (h : AInv s) : AInv (letThrough fuel s) := by
+  obtain ⟨sents, h1, h2, h3, h4, h5, h6, h7, moved, h8, h9⟩ := letThrough_spec fuel s
+  constructor
+  · intro x hx
+    rw [h5] at hx
+    obtain ⟨p, ps, hq, hid⟩ := h.part x hx
+    exact ⟨p, ps ++ moved.map (fun k => ⟨k, s.now + requestTimeout⟩), by rw [h9, hq]; rfl, hid⟩
+  · intro id x t hm
+    rw [h1] at hm
+    rcases List.mem_append.mp hm with hm | hm
+    · exact h.oks id x t hm
+    · exact absurd rfl (not_ok_of_sent _ (h2 _ hm) id x t)
+
+theorem abandon_ainv (s : St) (c : Option ReqId) (n : Time) (h : AInv s) :
+    AInv ({ abandon s c with now := n } : St) := by
+  constructor
+  · intro x hx; simp [abandon] at hx
+  · intro id x t hm
+    simp only [abandon, List.mem_append, List.mem_map, List.mem_singleton] at hm
+    rcases hm with ((hm | hm) | ⟨p, _, hm⟩) | ⟨k, _, hm⟩
+    · exact h.oks id x t hm
+    · cases hm
+    · split at hm <;> cases hm
+    · split at hm <;> cases hm
+
+theorem deliverResp_ainv (s : St) (x : Nat) (h : AInv s) (hp : s.part = none)
+    (hx : ∀ p ps, s.inflight = p :: ps → x = p.id) : AInv (deliverResp s x) := by
+  unfold deliverResp
+  split
+  · exact abandon_ainv s none s.now h
+  · rename_i p ps hq
+    apply letThrough_ainv
+    constructor
+    · intro y hy; simp [hp] at hy
+    · intro id y t hm
+      simp only [List.mem_append, List.mem_singleton] at hm
+      rcases hm with hm | hm
+      · exact h.oks id y t hm
+      · cases hm
+        exact hx p ps hq
+
+theorem step_ainv (s : St) (e : Ev) (h : AInv s) (ho : answersInOrder s e = true) : AInv (step s e) := by
+  cases e with
+  | req id =>
+    simp only [step]
+    split
+    · refine ⟨h.part, ?_⟩
+      intro id' x t hm
+      simp only [emit, List.mem_append, List.mem_singleton] at hm
+      rcases hm with hm | hm
+      · exact h.oks id' x t hm
+      · cases hm
+    · exact letThrough_ainv 1 _ ⟨h.part, h.oks⟩
+  | resp x =>
+    simp only [step]
+    split
+    · exact h
+    · rename_i hc
+      simp only [Bool.or_eq_true, Bool.not_eq_true', not_or, Bool.not_eq_false] at hc
+      have hp : s.part = none := by
+        cases hx : s.part with
+        | none => rfl
+        | some _ => simp [hx] at hc
+      exact deliverResp_ainv s x h hp (resp_in_order s x ho)
+  | event x =>
+    simp only [step]
+    split
+    · exact h
+    · refine ⟨h.part, ?_⟩
+      intro id y t hm
+      simp only [emit, List.mem_append, List.mem_singleton] at hm
+      rcases hm with hm | hm
+      · exact h.oks id y t hm
+      · cases hm
+  | half p =>
+    simp only [step]
+    split
+    · exact h
+    · refine ⟨?_, h.oks⟩
+      intro x hx
+      simp only [Option.some.injEq] at hx
+      subst hx
+      exact half_in_order s x ho
+  | rest =>
+    simp only [step]
+    split
+    · exact h
+    · split
+      · exact h
+      · rename_i x hp
+        obtain ⟨p, ps, hq, hid⟩ := h.part x hp
+        refine deliverResp_ainv { s with part := none } x ⟨by intro y hy; simp at hy, h.oks⟩ rfl ?_
+        intro p' ps' hq'
+        simp only at hq'
+        rw [hq] at hq'
+        cases hq'
+        exact hid
+      · refine ⟨by intro y hy; simp [emit] at hy, ?_⟩
+        intro id y t hm
+        simp only [emit, List.mem_append, List.mem_singleton] at hm
+        rcases hm with hm | hm
+        · exact h.oks id y t hm
+        · cases hm
+  | cancel id =>
+    simp only [step]
+    split
+    · exact abandon_ainv s (some id) s.now h
+    · split
+      · refine ⟨h.part, ?_⟩
+        intro id' y t hm
+        simp only [List.mem_append, List.mem_singleton] at hm
+        rcases hm with hm | hm
+        · exact h.oks id' y t hm
+        · cases hm
+      · exact h
+  | adv dt =>
+    simp only [step]
+    split
+    · split
+      · exact abandon_ainv { s with now := _ } none (s.now + dt) ⟨h.part, h.oks⟩
+      · exact ⟨h.part, h.oks⟩
+    · exact ⟨h.part, h.oks⟩
+  | peerClose =>
+    simp only [step]
+    split
+    · exact abandon_ainv s none s.now h
+    · exact h
+  | reconnect =>
+    simp only [step]
+    split
+    · exact h
+    · exact ⟨h.part, h.oks⟩
+
+/-- **Attribution over whole histories.**  If the accessory answers in order, then in every history - any
+    interleaving of requests, events, split messages, cancellations, timeouts, closes and reconnections - every
+    request that completes with a response completes with the response that was sent for it -/
+theorem C08_history_attribution (limit : Nat) (evs : List Ev) (h : InOrder (init limit) evs = true) :
+    ∀ id x t, Obs.done id (.ok x) t ∈ (run (init limit) evs).obs → x = id := by
+  have key : ∀ (l : List Ev) (s : St), AInv s → InOrder s l = true → AInv (run s l) := by
+    intro l
+    induction l with
+    | nil => intro s hs _; exact hs
+    | cons e es ih =>
+      intro s hs ho
+      simp only [InOrder, Bool.and_eq_true] at ho
+      exact ih _ (step_ainv s e hs ho.1) ho.2
+  exact (key evs _ ⟨by intro x hx; simp [init] at hx, by intro id x t hm; simp [init] at hm⟩ h).oks
+
+/-- non-vacuity: the premise is met by a history with concurrent callers, an event and a split response -/
+example : InOrder (init 2) [.req 1, .req 2, .event 7, .half (.resp 1), .req 3, .rest, .resp 2, .resp 3] = true := by
+  decide +kernel
+
+
 /-- non-vacuity: two callers on a connection with limit 1; an event between request and response; the first
     response completes caller 1, caller 2 is then sent; its timeout abandons the connection; a late response is
     ignored and a third request fails at once -/
